@@ -1,5 +1,7 @@
 import KitProofs.Props.C03
 import KitProofs.Props.C03Code
+import KitProofs.Props.C03CodePad
 import KitProofs.Census
 #census KitProofs.Props.C03
 #census KitProofs.Props.C03Code
+#census KitProofs.Props.C03CodePad
